@@ -209,6 +209,9 @@ MUTANTS = [
     ('C18', 'premade_lib.py', '  for i in range(len(quantiles_idx)):\n    if i not in first_use:',
      '  for i in range(1, len(quantiles_idx)):\n    if quantiles_idx[i] == quantiles_idx[i - 1]:', 'K2',
      'repeat test reads an entry the loop rewrites'),
+    ('C14', 'cdf_layer.py', '      result = tf.reduce_mean(result, axis=1)',
+     '      result = tf.reduce_mean(cdfs, axis=1)', 'Y1',
+     'mean reduction applied to the tensor before the sparsity reshape'),
     # ---- neutral variants (must stay silent)
     ('C08', 'lattice_lib.py', '    average = (layers[i] + layers[i + 1]) / 2.0', '    average = 0.5 * (layers[i] + layers[i + 1])',
      None, 'N: average written as 0.5 * sum'),
